@@ -613,6 +613,10 @@ func runC13(w *World, c *Check) {
 	c.Rule("C13.shadow", "shadow structs agree with their public twins; Marshal/Unmarshal cover every wire field; raw tickets carry the RFC's context tag", 100)
 	c.Rule("C13.wire", "every asn1.Marshal call site encodes only tagged fields", 20)
 	c.Rule("C13.processing", "decrypting, verifying or inspecting a decoded message stores only into its non-wire helper fields: what was decoded is what is re-encoded, whatever was done in between", 7)
+	c.Rule("C13.no-clobber", "decrypting, verifying or checksumming never writes into the bytes it was given (a decoded message's cipher field, a key): what was decoded is still what is re-encoded afterwards", 40)
+	ruleNoClobber(w, c, "C13.no-clobber", []string{"EType.DecryptData", "EType.DecryptMessage", "EType.VerifyIntegrity", "EType.VerifyChecksum", "EType.GetChecksumHash", "EType.DeriveKey", "EType.DeriveRandom",
+		"crypto.DecryptEncPart", "crypto.DecryptMessage"},
+		"the function does not write into the backing array of a byte slice it received")
 	c.Rule("C13.flags", "flag i lives in byte i/8, bit 7-(i-8*(i/8)) in SetFlag, UnsetFlag and IsFlagSet; flags are 32 bits", 4)
 	c.Rule("C13.framing", "SPNEGO and KRB5 tokens are OID‖body in APPLICATION 0 on both sides; NegTokenInit/Resp are context tags 0/1 on both sides; ticket sequences are SEQUENCE (0x30)", 7)
 
@@ -728,17 +732,20 @@ func runC13(w *World, c *Check) {
 		c.Missing("C13.framing", "messages.MarshalTicketSequence")
 	} else {
 		fa := NewFuncAn(w, fn)
+		// the bytes of the raw value, however assembled: 0x30, the length octets of the tickets, then
+		// the tickets' encodings in the order of the slice (Σ: each one appended after those before it)
 		ok := false
-		for _, b := range fn.Blocks {
-			for _, in := range b.Instrs {
-				if call, ok2 := in.(*ssa.Call); ok2 {
-					if s := fa.RenderCall(call); strings.HasPrefix(s, "append([48], append(asn1tools.MarshalLengthBytes(len(") {
-						ok = true
-					}
-				}
+		detail := "no store to the raw value's Bytes"
+		for _, st := range fa.storesTo(`.*\.Bytes`) {
+			ps, _ := fa.BufferPlaces(st.Val)
+			detail = placesString(ps)
+			if len(ps) != 3 {
+				continue
 			}
+			tk := substParams(fn, `Σ\(messages\.\(\*Ticket\)\.Marshal\(tkts\[\$i\d+\]\)#0\)`)
+			ok = ps[0].String() == "48@0:1" && ps[1].Off == "1" && fullMatch(`asn1tools\.MarshalLengthBytes\(len\(.*\)\)`, ps[1].What) && fullMatch(tk, ps[2].What) && ps[2].Off == ps[1].End
 		}
-		c.Decide(ok, "C13.framing", FuncKey(fn), "sequence-header", w.Pos(fn.Pos()), "the ticket sequence is 0x30 ‖ length ‖ concatenated tickets", "no append([0x30], append(MarshalLengthBytes(len(tickets)), tickets...)) shape")
+		c.Decide(ok, "C13.framing", FuncKey(fn), "sequence-header", w.Pos(fn.Pos()), "the ticket sequence is 0x30 ‖ length ‖ the tickets' encodings in slice order", "bytes: "+detail)
 	}
 	checkCalls(w, c, "C13.framing", "messages.unmarshalTicketsSequence", []CallSpec{
 		{Name: "skip-header", Desc: "decoding skips one tag octet plus the length octets of the same header", Callee: `asn1tools\.GetNumberBytesInLengthHeader`, Want: `asn1tools\.GetNumberBytesInLengthHeader\(in\.Bytes\)`},
